@@ -23,6 +23,12 @@ FIXED = [
     ("D11", ["C15"], "fix: cache leaf counters ignore deleted metadata leaves", "meta-delete-decrements-leafcount",
      "ConnectError then Connect, or a wildcard delete that takes the meta subtree, drove targetLeaves negative"),
 ]
+FIXED += [
+    ("D14", ["C06", "C08"], "fix: a notification is offered to a subscriber once even with a single update", "single-entry-notification-double-offer",
+     "a subscriber with paths a and a/b was offered a single-update notification for a/b/c twice (reported as coalesced with itself)"),
+    ("D17", ["C06"], "fix: ending a subscription unregisters every one of its paths", "multi-path-subscription-stale-after-end",
+     "a subscription with two or more paths left all but its last path registered after the RPC ended (aliased prefix slice in addSubscription)"),
+]
 OPEN = [
 ]
 try:
